@@ -16,7 +16,7 @@ static inline bool TC_has_dropping_queue(TCx* t) { return t->_queue_type == QT_U
 static inline bool TC_has_blocking_queue(TCx* t) { return t->_queue_type == QT_UnboundedBlocking || t->_queue_type == QT_BoundedBlocking; }
 static inline bool TC_is_valid(TCx* t) { return t->_valid; }
 /* queue.empty() of the thread's frontend queue (sequentially consistent view; C01/C02 give its meaning) */
-static inline bool QUEUE_empty(TCx* t) { return t->g_queue_empty; }
+static inline bool QUEUE_empty(TCx* t) { return t->g_queue_empty ? 1 : 0; }   /* normalised: a symbolic _Bool field may hold any byte in CBMC, a C++ bool is 0 or 1 */
 size_t g_updates;
 void BW__update_active_thread_contexts_cache(BW* self) __CPROVER_assigns(g_updates) __CPROVER_ensures(g_updates == OLD(g_updates) + 1);
 #define T_(s) ((s)->_active_thread_contexts_cache.tracked)
@@ -189,3 +189,33 @@ __CPROVER_ensures(g_now_reads == 1 ==> g_t_now < g_t_first_read) /*@ C05 "the li
     trusted=['context cache abstracted to {tracked, representative}', '_read_and_decode_frontend_queue by contract (units BW.read_decode[*])', 'std::chrono subtraction of microseconds from nanoseconds converts to nanoseconds'],
     min_obligations=30)
 UNITS.append(populate_all)
+
+# ------------------------------------------------------------------------------------------ _check_frontend_queues_and_cached_transit_events_empty
+queues_empty = dict(
+    name='BW.queues_empty', primary='C07', props={'C07', 'C17', 'C03'}, kind='S',
+    desc='BackendWorker::_check_frontend_queues_and_cached_transit_events_empty: the context cache is refreshed first (threads that registered since are included), and the answer is true exactly when the queue and the backend buffer of every thread are empty',
+    structs=[], prelude=HP_PRELUDE, enforce='BW_queues_empty', replace=['BW__update_active_thread_contexts_cache'], loopcontracts=True,
+    funcs=[dict(src=dict(header=H, cls='BackendWorker', name='_check_frontend_queues_and_cached_transit_events_empty'), src_params=[],
+                cfun='BW_queues_empty', sig='bool BW_queues_empty(BW* self)', cls_c='BW', member_fields=['_active_thread_contexts_cache'],
+                siblings=['_update_active_thread_contexts_cache'], methods=TC_METHODS, pre_rules=Q_RULES,
+                range_for=[(r'_active_thread_contexts_cache', 'CVec_size', 'CVec_get', 'TCx*')],
+                loops={0: r'''
+__CPROVER_assigns(__i0, all_empty)
+__CPROVER_loop_invariant(__i0 <= self->_active_thread_contexts_cache.n)
+/* a havocked _Bool may hold any byte in CBMC: pin it to 0/1 (it is only ever assigned true and and-ed with 0/1 values) */
+__CPROVER_loop_invariant(*(unsigned char*)&all_empty <= 1)
+__CPROVER_loop_invariant((__i0 > self->_active_thread_contexts_cache.g_p && all_empty) ==> (T_(self)->_transit_event_buffer->g_size == 0 && T_(self)->g_queue_empty))
+__CPROVER_loop_invariant((T_(self)->_transit_event_buffer->g_size == 0 && T_(self)->g_queue_empty && O_(self)->_transit_event_buffer->g_size == 0 && O_(self)->g_queue_empty) ==> all_empty)
+__CPROVER_decreases(self->_active_thread_contexts_cache.n - __i0)
+'''},
+                contract=r'''
+__CPROVER_requires(''' + FRESH2 + r''' && g_updates == 0 && self->_active_thread_contexts_cache.g_p < self->_active_thread_contexts_cache.n)
+__CPROVER_assigns(g_updates)
+__CPROVER_ensures(g_updates == 1) /*@ C07,C03 "the set of threads is refreshed before the check: a thread that registered since the last pass is not overlooked" */
+__CPROVER_ensures(RET ==> (T_(self)->_transit_event_buffer->g_size == 0 && T_(self)->g_queue_empty)) /*@ C07,C17 "'everything is empty' is answered only if the queue and the backend buffer of every thread are empty (nothing completed is left behind at exit; no statement of a logger about to be destroyed is pending)" */
+__CPROVER_ensures((T_(self)->_transit_event_buffer->g_size == 0 && T_(self)->g_queue_empty && O_(self)->_transit_event_buffer->g_size == 0 && O_(self)->g_queue_empty) ==> RET) /*@ C07 "when everything is empty the check says so (the exit drain terminates)" */
+''')],
+    harness='  BW* s; BW_queues_empty(s);',
+    dropped=['asserts (NDEBUG)', 'union access to the bounded/unbounded queue (one abstract emptiness query)'],
+    trusted=['context cache abstracted to {one tracked context, one representative}', 'queue.empty() under sequentially consistent semantics (its meaning: BQ.empty / UQ.empty)', 'the cache refresh itself: units TCM.register / BW.update_cache'], min_obligations=20)
+UNITS.append(queues_empty)
